@@ -52,6 +52,9 @@ def main():
     # ---- detection: apply to /repo, run checks, undo
     st = subprocess.run("git -C /repo status --porcelain", shell=True, capture_output=True, text=True).stdout.strip()
     assert st == "", "/repo is dirty: " + st
+    # evidence files are written by the checks: keep the ones of the unchanged tree
+    EV_BACKUP = "/tmp/evidence_backup_%d" % os.getpid()
+    sh("rm -rf %s && cp -r /verif/evidence %s" % (EV_BACKUP, EV_BACKUP))
     rc, o = sh("git -C /repo apply %s" % patch)
     try:
         for c in checks:
@@ -70,6 +73,7 @@ def main():
             meta["detection"][c] = det
     finally:
         sh("git -C /repo checkout -- .")
+        sh("cp %s/*.json /verif/evidence/ && rm -rf %s" % (EV_BACKUP, EV_BACKUP))
     shutil.copy(patch, os.path.join(dest, "patch.diff"))
     shutil.copy(demo, os.path.join(dest, "demo.rs"))
     meta["needs_to_manifest"] = notes[:3000]
